@@ -530,6 +530,9 @@ func (e *FloatExp) MarshalJSON() ([]byte, error) {
 	if e == nil {
 		return []byte("null"), nil
 	}
+	if e.Value == 0 && math.Signbit(e.Value) {
+		return []byte("-0.0"), nil
+	}
 	var buf [68]byte
 	return strconv.AppendFloat(buf[:0], e.Value, 'g', -1, 64), nil
 }
